@@ -9,6 +9,11 @@ theorem counters_sized :
     countersSized "NeoGeoRam" NeoGeoRam_TakeSnapshot NeoGeoRam_ClearStatistics = true ∧
     countersSized "F256RevBMemory" F256RevBMemory_TakeSnapshot F256RevBMemory_ClearStatistics = true := by decide
 
+/-- every access counter is a 64-bit counter (an array of them, or a single one for a register cell): it cannot wrap
+    within 2^64 accesses to one byte, i.e. within any run that can be executed -/
+theorem counters_wide : counterFieldTypes.all (fun e => e.2.2 == "[]uint64" || e.2.2 == "uint64") = true ∧ counterFieldTypes.length ≥ 9 := by
+  decide
+
 example : liveFieldOf X16Memory_TakeSnapshot "statBankedRam" = some "bankedRAM8K" := by decide
 
 end Verif.Facts
